@@ -118,6 +118,60 @@ def gen_calls(rng, fns, per_fn):
     return cases
 
 
+def factor_calls(rng, fns):
+    """one-factor-at-a-time sweep: for every integer / float / array parameter of every function, every edge value of the
+    pool at that parameter (arrays additionally as a non-constant typed expression), the other required parameters
+    holding a random accepted value; so that a defect needing one particular edge value at one particular parameter
+    does not depend on the luck of the random tuples"""
+    cases = []
+    for fn in fns:
+        name = fn["name"]
+        if fn["closure"] or name in NONDET:
+            continue
+        params = fn["params"]
+        for fi, fp in enumerate(params):
+            vals = []
+            for kind in ("INTEGER", "FLOAT", "ARRAY"):
+                if fp["kind"] & KBITS[kind]:
+                    for v in POOL[kind]:
+                        vals.append((v, "lit"))
+                        if kind == "ARRAY":
+                            vals.append((v, "typed"))
+            for v, fmode in vals:
+                args, ev = [], []
+                for pi, p in enumerate(params):
+                    if pi == fi:
+                        val, mode = v, fmode
+                    else:
+                        if not p["required"]:
+                            continue
+                        allowed = [x for k, vs in POOL.items() if p["kind"] & KBITS[k] for x in vs]
+                        val = rng.choice(allowed or ALLV)
+                        mode = "lit" if rng.random() < 0.7 else "field"
+                    src = lit_src(val)
+                    if src is None or (mode == "lit" and pi == fi and rng.random() < 0.25):
+                        mode = "field"
+                    if mode == "typed":
+                        src = "values({%s})" % ", ".join('"k%02d": %s' % (i, lit_src(x)) for i, x in enumerate(val["a"]))
+                        if any(lit_src(x) is None for x in val["a"]):
+                            mode = "field"
+                    if mode == "field":
+                        ev.append(("p%d" % pi, val))
+                        src = ".p%d" % pi
+                    args.append((p["kw"], val, mode, bool(vbit(val) & p["kind"]), src))
+                parts, positional = [], True
+                for pi, p in enumerate(params):
+                    a = [x for x in args if x[0] == p["kw"]]
+                    if not a:
+                        positional = False
+                        continue
+                    parts.append(a[0][4] if (positional and p["required"]) else "%s: %s" % (p["kw"], a[0][4]))
+                body = ", ".join(parts)
+                cases.append({"fn": name, "plain": "%s(%s)" % (name, body), "bang": "%s!(%s)" % (name, body), "event": jo(ev),
+                              "args": [(a[0], a[1], a[2], a[3]) for a in args], "origin": "generated"})
+    return cases
+
+
 def example_calls(fns):
     cases = []
     for fn in fns:
@@ -180,7 +234,7 @@ def corpus_calls():
 
 def stream(run, per_fn):
     fns = list_functions()
-    cases = corpus_calls() + example_calls(fns) + gen_calls(run.rng, fns, per_fn)
+    cases = corpus_calls() + example_calls(fns) + factor_calls(run.rng, fns) + gen_calls(run.rng, fns, per_fn)
     return fns, cases
 
 
